@@ -95,7 +95,7 @@ def load_corpus(pid, sname):
     return cases
 
 
-def run_stream(mod, st, rep, tier, seed, pool, extra_round=0):
+def run_stream(mod, st, rep, tier, seed, pool, extra_round=0, with_model=False):
     rng = seeded_rng(seed, mod.ID, st.name, extra_round)
     st.seed = seed + 7919 * extra_round
     cases = (load_corpus(mod.ID, st.name) + list(st.corpus()) if extra_round == 0 else []) + list(st.gen(rng, tier))
@@ -130,9 +130,9 @@ def run_stream(mod, st, rep, tier, seed, pool, extra_round=0):
                 continue
             rep.add_violation('property-violated', '[%s] %s' % (st.name, v), dict(stream=st.name, case=c, impl_output=out))
     info = dict(name=st.name, evaluated=0, disagreements=0, cases=len(cases), exhaustive=st.exhaustive)
-    if st.model and extra_round == 0:
+    if st.model and (extra_round == 0 or with_model):
         terms = [st.term(c, out) for c, (out, _) in zip(cases, res)]
-        r = common.run_cases_v(mod.ID, st.name, st.prelude, terms, shard=st.shard, case_type=getattr(st, 'case_type', None))
+        r = common.run_cases_v(mod.ID, st.name + ('' if extra_round == 0 else '_x%d' % extra_round), st.prelude, terms, shard=st.shard, case_type=getattr(st, 'case_type', None))
         info.update(evaluated=r['evaluated'], disagreements=len(r['bad']), coq_files=r['files'])
         if r['errors']:
             info['errors'] = r['errors'][:3]
@@ -190,6 +190,30 @@ def run_property(mod, tier, seed):
             rep.corr.append(info)
         if hasattr(mod, 'extra_checks'):
             mod.extra_checks(tier, seed, rep)
+        # the code changed since the model was last validated against it: search harder (no alarm by itself)
+        changed = common.changed_since_baseline()
+        relevant = sorted(set(changed) & (common.relevant_files(mod.ID) | set(getattr(mod, 'EXTRA_ANCHORS', []))))
+        if relevant and not rep.violations:
+            boost = int(os.environ.get('COMA_BOOST', '2' if tier == 'quick' else '1'))
+            rep.notes.append('source files changed since the validated baseline: %s -> %d extra rounds of every stream (with the model)' % (relevant, boost))
+            for r in range(101, 101 + boost):
+                for st in mod.STREAMS:
+                    if st.exhaustive:
+                        continue          # a complete enumeration does not change with the seed
+                    try:
+                        info = run_stream(mod, st, rep, tier, seed, pool, extra_round=r, with_model=True)
+                        info['name'] = '%s (extra round %d)' % (st.name, r - 100)
+                        rep.corr.append(info)
+                    except multiprocessing.TimeoutError:
+                        pool.terminate()
+                        pool = multiprocessing.get_context('fork').Pool(common.NCPU)
+                        rep.add_violation('correspondence-broken', '[%s] the implementation did not finish within the time budget (extra round)' % st.name,
+                                          dict(stream=st.name, correspondence=mod.ID + '/' + st.name), no_input=True)
+                    except Exception:
+                        rep.add_violation('correspondence-broken', '[%s] stream failed in an extra round: %s' % (st.name, traceback.format_exc()[-500:]),
+                                          dict(stream=st.name, correspondence=mod.ID + '/' + st.name), no_input=True)
+                if rep.violations:
+                    break
         broken = (not pr.get('ok')) or any(v['no_input'] for v in rep.violations)
         found = any(not v['no_input'] for v in rep.violations)
         if broken and not found:
